@@ -558,6 +558,10 @@ fn load_sheet_rels<R: Read + std::io::Seek>(
     // relationship id ("rId4") -> target of the hyperlink
     let mut hyperlinks = HashMap::new();
     let v: Vec<&str> = path.split("/worksheets/").collect();
+    if v.len() < 2 {
+        // not a part under a `worksheets` folder: there are no relationships we can find
+        return Ok((comments, hyperlinks));
+    }
     let mut path = v[0].to_string();
     path.push_str("/worksheets/_rels/");
     path.push_str(v[1]);
@@ -872,8 +876,8 @@ pub(super) fn load_sheet<R: Read + std::io::Seek>(
     let mut sheet_data = SheetData::new();
     let sheet_data_nodes = ws
         .children()
-        .filter(|n| n.has_tag_name("sheetData"))
-        .collect::<Vec<Node>>()[0];
+        .find(|n| n.has_tag_name("sheetData"))
+        .ok_or_else(|| XlsxError::Xml("Missing sheetData element in worksheet".to_string()))?;
 
     let default_row_height = 14.5;
 
@@ -1297,7 +1301,9 @@ pub(super) fn load_sheets<R: Read + std::io::Seek>(
     // load comments, tables and hyperlink relationships
     let mut sheet_rels = HashMap::new();
     for sheet in &workbook.worksheets {
-        let rel = &rels[&sheet.id];
+        let rel = rels.get(&sheet.id).ok_or_else(|| {
+            XlsxError::Xml(format!("Missing relationship '{}' for sheet '{}'", sheet.id, sheet.name))
+        })?;
         if rel.rel_type.ends_with("worksheet") {
             let path = &rel.target;
             let path = if let Some(p) = path.strip_prefix('/') {
